@@ -690,6 +690,12 @@ func (fr *Frame) makeSlice(x *ssa.MakeSlice, st *State) {
 	cp := convInt(fr.val(x.Cap), x.Cap.Type(), 64)
 	fr.obl("makeslice", x.Pos(), And(BVSle(bv64(0), ln), BVSle(ln, cp)), "C13")
 	fr.noteAlloc(x.Pos(), cp, x.Type().Underlying().(*types.Slice).Elem())
+	if fr.ex.allocBound != nil {
+		// C13 (memory): no single allocation exceeds the bound the contract states in terms of the inputs
+		if v, ok := cp.BVVal(); !ok || v > 1<<16 {
+			fr.obl("alloc", x.Pos(), BVUle(cp, fr.ex.allocBound), "C13")
+		}
+	}
 	fr.assumeG(BVUlt(cp, lim48))
 	E := x.Type().Underlying().(*types.Slice).Elem()
 	base := fr.ex.newObj()
